@@ -16,6 +16,8 @@ libFuzzer is pinned by -seed/-runs only approximately; the saved input is the re
 import glob, json, os, random, re, shutil, subprocess, sys, time
 
 VERIF = "/verif"
+# evidence and replay files go to VERIF_OUT when set (ad-hoc deep runs), exactly like the proptest tiers
+OUT = os.environ.get("VERIF_OUT", VERIF)
 TARGETS = {
     "c01": "C01", "c02": "C02", "c03": "C03", "c04": "C04", "c05": "C05", "c09": "C09", "c10": "C10", "c10-text": "C10",
     "c11": "C11", "c11-hostile": "C11", "c12": "C12", "c13": "C13", "c15": "C15", "c16-ir": "C16", "c16-json": "C16",
@@ -118,7 +120,7 @@ def main():
     prop = TARGETS[target]
     seed = int(os.environ.get("VERIF_SEED", "20260921")) & 0x7FFFFFFF
     binary = build() if do_build else "/verif/target-fuzz/x86_64-unknown-linux-gnu/release/fz"
-    work = f"{VERIF}/scratch/fuzz/{target}"
+    work = f"{OUT}/scratch/fuzz/{target}"
     shutil.rmtree(work, ignore_errors=True)
     os.makedirs(work)
     dict_path = None
@@ -127,7 +129,7 @@ def main():
         dict_path = f"{work}/dict.txt"
         open(dict_path, "w").write("".join(f"\"{w}\"\n" for w in words))
     max_len = {"c10-text": 1200, "c19-text": 3000, "c16-json": 300, "c16-ron": 300}.get(target, 1000)
-    before = set(glob.glob(f"{VERIF}/corpus/{prop}/fail-*.json"))
+    before = set(glob.glob(f"{OUT}/corpus/{prop}/fail-*.json"))
     t0 = time.time()
     procs = []
     for j in range(workers):
@@ -172,7 +174,7 @@ def main():
         if len(agg["samples"]) < 5:
             agg["samples"].extend(s.get("samples", [])[: 5 - len(agg["samples"])])
     agg["executions"] = sum(r["executions"] for r in results)
-    new_fail = sorted(set(glob.glob(f"{VERIF}/corpus/{prop}/fail-*.json")) - before)
+    new_fail = sorted(set(glob.glob(f"{OUT}/corpus/{prop}/fail-*.json")) - before)
     violations = []
     for f in new_fail:
         try:
@@ -193,7 +195,8 @@ def main():
         "discards": agg["discards"], "label_counts": agg["labels"], "known_finding_hits": agg["known_finding_hits"],
         "samples": agg["samples"], "violations": len(violations), "inconclusive_workers": len(inconclusive), "wall_s": round(wall, 1),
     }
-    ev_path = f"{VERIF}/evidence/{prop}.json"
+    os.makedirs(f"{OUT}/evidence", exist_ok=True)
+    ev_path = f"{OUT}/evidence/{prop}.json"
     try:
         ev = json.load(open(ev_path))
     except (OSError, ValueError):
